@@ -222,6 +222,20 @@ fn judge(sc: &Scenario, tx: &tir::Tx, pp: &PP, o: &mut Outcome) {
         }
         Err(e) => viol(o, format!("fee|next-round-fails|{qual}"), format!("one more round from the returned transaction fails: {e}")),
     }
+    // a deposit written as `min_utxo(small)` is the deposit of `small` as it stands in the returned transaction
+    // ((160 + its encoded length) x coins per byte): at a fixed point the round that sized it saw this very output
+    if sc.name.starts_with("min-utxo") {
+        if let Some(small) = rec.outputs.first() {
+            let want = (160 + small.raw_len as u128) * pp.coins_per_utxo_byte as u128;
+            if small.lovelace as u128 != want {
+                viol(
+                    o,
+                    format!("fee|min_utxo-not-sized-from-the-returned-transaction|{qual}"),
+                    format!("output `small` holds {} lovelace; encoded in {} bytes its deposit is {want}", small.lovelace, small.raw_len),
+                );
+            }
+        }
+    }
     // every fee-dependent amount was computed with that fee: the transaction balances against the store
     let mut consumed: i128 = 0;
     for (txid, ix) in &rec.inputs {
@@ -264,10 +278,10 @@ impl Prop for C05 {
         format!(
             "rounds of the resolve loop as transitions (each executes the real apply_fees / compiler ops / reduce / inputs::resolve / compile): for every \
              configuration of the grid coefficient in {} x constant in {:?} x extra_fees in {{None, 0, 7}} x coins_per_utxo_byte in {{1, 4310}}, plus \
-             width windows (coefficient 0/1, margin 0, constant through [0,300], [65400,65700], [2^32-300, 2^32+300]), and every one of {} template / store \
+             width windows (coefficient 0/1, margin 0, constant through [0,300], [65400,65700], [2^32-300, 2^32+300]; for the min_utxo scenarios coins_per_utxo_byte through [250, 360] + {{1, 2, 4310, 65535, 65536}}, where a deposit changes its encoded width between rounds), and every one of {} template / store \
              scenarios (fees in change, in min_amount, input* whose selection grows with the fee, one and two min_utxo, token change; ample / tight / \
              several / ladder / tiny stores) the orbit of fee -> transaction -> fee is followed to a fixed point, a cycle or 32 rounds, and resolve_tx is \
-             called: its result must have body fee = reported fee = coefficient*|payload| + constant + margin, be reproduced by one more round, and \
+             called: its result must have body fee = reported fee = coefficient*|payload| + constant + margin, be reproduced by one more round, hold in `small` exactly the deposit of `small` as encoded in the returned transaction, and \
              balance against the store. Candidate sets are handed out in a fixed order so that orbits are functions of the configuration.",
             if tier.is_thorough() { "0..=1000".to_string() } else { "0..=64 + {100,255,256,440,999,1000}".to_string() },
             CONSTANTS,
@@ -295,6 +309,15 @@ impl Prop for C05 {
                 sink.case(|| json!({"kind": "width-window", "scenario": s, "coefficient": c}));
             }
         }
+        // the cost per byte through the window in which a deposit sized from the placeholder of the first round and
+        // one sized from the real output differ in their encoded width (197 c < 2^16 <= 225 c), and around it
+        for c in [0u64, 44] {
+            for (s, sc) in scenarios().iter().enumerate() {
+                if sc.name.starts_with("min-utxo") {
+                    sink.case(|| json!({"kind": "utxo-cost-window", "scenario": s, "coefficient": c}));
+                }
+            }
+        }
     }
     fn run(&self, case: &Value) -> Outcome {
         let mut o = Outcome::default();
@@ -311,6 +334,12 @@ impl Prop for C05 {
                         o.key(hash64(&(sc.name, coefficient, constant, extra, cpb)));
                     }
                 }
+            }
+        } else if case["kind"] == "utxo-cost-window" {
+            for cpb in (250u64..=360).chain([1, 2, 4310, 65_535, 65_536]) {
+                let pp = PP { coefficient, constant: 155_381, extra_fees: Some(0), coins_per_utxo_byte: cpb, ..PP::default() };
+                judge(sc, &tx, &pp, &mut o);
+                o.key(hash64(&(sc.name, coefficient, cpb, "utxo-cost")));
             }
         } else {
             for constant in window_constants() {
